@@ -10,6 +10,7 @@ import (
 	"encoding/xml"
 	"errors"
 	"io"
+	"strings"
 
 	"mellium.im/sasl"
 	"mellium.im/xmlstream"
@@ -59,6 +60,9 @@ func newSASL(identity, password string, permissions func(*sasl.Negotiator) bool,
 
 			startMechanism := xml.StartElement{Name: xml.Name{Space: "", Local: "mechanism"}}
 			for _, m := range mechanisms {
+				if !serverSupported(m) {
+					continue
+				}
 				select {
 				case <-ctx.Done():
 					return true, ctx.Err()
@@ -93,6 +97,17 @@ func newSASL(identity, password string, permissions func(*sasl.Negotiator) bool,
 			return negotiateClient(ctx, identity, password, session, data, mechanisms...)
 		},
 	}
+}
+
+// serverSupported reports whether the receiving entity can offer the mechanism.
+//
+// The server side of the SASL library does not implement channel binding: its
+// state machine panics as soon as a "-PLUS" mechanism is stepped. Such
+// mechanisms are therefore neither advertised nor accepted by a receiving
+// entity (a client that asks for one anyway gets <invalid-mechanism/>) and
+// clients fall back to the variant without channel binding.
+func serverSupported(m sasl.Mechanism) bool {
+	return !strings.HasSuffix(m.Name, "-PLUS")
 }
 
 func negotiateServer(ctx context.Context, identity, password string, permissions func(*sasl.Negotiator) bool, session *Session, data interface{}, mechanisms ...sasl.Mechanism) (SessionState, io.ReadWriter, error) {
@@ -139,7 +154,7 @@ func negotiateServer(ctx context.Context, identity, password string, permissions
 		case xml.Name{Space: ns.SASL, Local: "auth"}:
 			selected = sasl.Mechanism{}
 			for _, m := range mechanisms {
-				if selection.Name == m.Name {
+				if selection.Name == m.Name && serverSupported(m) {
 					selected = m
 					break
 				}
